@@ -111,7 +111,9 @@ where
         max_poly_degree: usize,
     ) -> Result<Self, VerifierError> {
         // infer evaluation domain info
-        let domain_size = max_poly_degree.next_power_of_two() * options.blowup_factor();
+        // the evaluation domain holds `max_poly_degree + 1` (a power of two) coefficients times the
+        // blowup factor; note that `1usize.next_power_of_two() == 1`
+        let domain_size = (max_poly_degree + 1).next_power_of_two() * options.blowup_factor();
         let domain_generator = E::BaseField::get_root_of_unity(domain_size.ilog2());
 
         let num_partitions = channel.read_fri_num_partitions();
